@@ -181,6 +181,7 @@ pub fn gen_mc(r: &mut Rng, rp_id: &str) -> McSpec {
         up: true,
         uv: r.bool(),
         pin_auth: false,
+        pin_empty: false,
         hmac_secret: None,
         prf: None,
         via_trait: false,
@@ -197,6 +198,7 @@ pub fn gen_ga(r: &mut Rng, rp_id: &str) -> GaSpec {
         up: r.chance(5, 6),
         uv: r.bool(),
         pin_auth: false,
+        pin_empty: false,
         prf: None,
         via_trait: false,
     }
@@ -249,6 +251,8 @@ pub fn gen_actor(r: &mut Rng) -> Actor {
         presence_enabled: true,
         verification: Some(true),
         allow_localhost: true,
+        transports: if r.chance(1, 3) { r.range(1, 6) as u8 } else { 0 },
+        aaguid: if r.chance(1, 4) { *r.pick(&[1u8, 2, 0xFF]) } else { 0 },
         ops: Vec::new(),
     }
 }
